@@ -35,7 +35,7 @@ def shard(ctx, budget_s):
     n = 0
     allcmds = list(range(ctx.shard, 256, ctx.nshards))
     while time.time() < deadline or n == 0:
-        cfg = gen.rnd_config(rng, deny=False, logger=rng.choice("nc"), level=2)
+        cfg = gen.rnd_config(rng, deny=False, logger=rng.choice("nnncl"), level=rng.choice([0, 0, 2, 3, 4, 5]))
         ctx.case(cfg)
         lab = AppLab(ctx, cfg)
         for _ in range(40):
